@@ -383,8 +383,8 @@ def distance_to_segment2D(P : Vec, A : Vec, B : Vec) -> float:
     P,A,B = P[:2], A[:2], B[:2]
     seg = B-A
     seg_length_sq = dot(seg,seg)
-    if seg_length_sq<1e-12: 
-        # segment is a single point
+    if seg_length_sq==0: 
+        # segment is a single point (exact test: independent of the unit of length)
         return distance(P,A)
     t = max(0, min(1, dot(P-A, seg)/seg_length_sq))
     proj = A + t*seg
